@@ -169,6 +169,7 @@ type symEnv struct {
 	elem  map[string]lpoly       // array element assignments: "name[k]" -> value
 	err   string
 	depth int
+	lits  map[types.Object]*ast.FuncLit // locals bound once to a function literal
 }
 
 func newSymEnv(p *core.Prog, info *types.Info) *symEnv {
@@ -183,6 +184,8 @@ func (e *symEnv) clone() *symEnv {
 	for k, v := range e.elem {
 		n.elem[k] = v
 	}
+	n.lits = e.lits
+	n.depth = e.depth
 	return n
 }
 
@@ -346,6 +349,9 @@ func (e *symEnv) eval(x ast.Expr) (lpoly, bool) {
 		if tv, ok := e.info.Types[v.Fun]; ok && tv.IsType() && len(v.Args) == 1 {
 			return e.eval(v.Args[0])
 		}
+		if r, ok := e.inlineLit(v); ok {
+			return r, true
+		}
 		if f := core.Callee(e.info, v); f != nil {
 			id := core.ShortFuncID(f)
 			switch {
@@ -378,14 +384,34 @@ func (e *symEnv) eval(x ast.Expr) (lpoly, bool) {
 // idiom in which every return but the last gives the failure value.  The helper's parameters take the symbolic
 // values of the arguments.
 func (e *symEnv) inlineCall(f *types.Func, call *ast.CallExpr) (lpoly, bool) {
-	if e.depth >= 2 {
-		return nil, false
-	}
 	h := e.p.ByObj[f.Origin()]
-	if h == nil || h.Decl.Body == nil || h.Decl.Recv != nil || !core.IsModPath(h.Pkg.PkgPath) || len(h.Decl.Body.List) == 0 || len(h.Decl.Body.List) > 12 {
+	if h == nil || h.Decl.Body == nil || h.Decl.Recv != nil || !core.IsModPath(h.Pkg.PkgPath) {
 		return nil, false
 	}
-	sig := h.Obj.Type().(*types.Signature)
+	return e.inlineBody(h.Decl.Body, h.Obj.Type().(*types.Signature), h.Pkg.TypesInfo, call)
+}
+
+// inlineLit: the same for a call of a local that was bound to a function literal (`f := func(i int) int {…}`).
+func (e *symEnv) inlineLit(call *ast.CallExpr) (lpoly, bool) {
+	id, ok := ast.Unparen(call.Fun).(*ast.Ident)
+	if !ok || e.lits == nil {
+		return nil, false
+	}
+	lit := e.lits[core.ObjOf(e.info, id)]
+	if lit == nil {
+		return nil, false
+	}
+	sig, ok := e.info.TypeOf(lit).(*types.Signature)
+	if !ok {
+		return nil, false
+	}
+	return e.inlineBody(lit.Body, sig, e.info, call)
+}
+
+func (e *symEnv) inlineBody(body *ast.BlockStmt, sig *types.Signature, info *types.Info, call *ast.CallExpr) (lpoly, bool) {
+	if e.depth >= 2 || len(body.List) == 0 || len(body.List) > 12 {
+		return nil, false
+	}
 	numeric := func(t types.Type) bool {
 		b, ok := t.Underlying().(*types.Basic)
 		return ok && b.Info()&types.IsNumeric != 0
@@ -399,7 +425,7 @@ func (e *symEnv) inlineCall(f *types.Func, call *ast.CallExpr) (lpoly, bool) {
 		}
 	}
 	var rets []*ast.ReturnStmt
-	ast.Inspect(h.Decl.Body, func(n ast.Node) bool {
+	ast.Inspect(body, func(n ast.Node) bool {
 		if _, isLit := n.(*ast.FuncLit); isLit {
 			return false
 		}
@@ -408,7 +434,7 @@ func (e *symEnv) inlineCall(f *types.Func, call *ast.CallExpr) (lpoly, bool) {
 		}
 		return true
 	})
-	last, ok := h.Decl.Body.List[len(h.Decl.Body.List)-1].(*ast.ReturnStmt)
+	last, ok := body.List[len(body.List)-1].(*ast.ReturnStmt)
 	if !ok || len(rets) == 0 || rets[len(rets)-1] != last {
 		return nil, false
 	}
@@ -423,7 +449,7 @@ func (e *symEnv) inlineCall(f *types.Func, call *ast.CallExpr) (lpoly, bool) {
 			fail := canon(r.Results[1])
 			isErrCall := false
 			if cl, ok := ast.Unparen(r.Results[1]).(*ast.CallExpr); ok {
-				isErrCall = core.IsCallTo(h.Pkg.TypesInfo, cl, "errors.New", "fmt.Errorf")
+				isErrCall = core.IsCallTo(info, cl, "errors.New", "fmt.Errorf")
 			}
 			if fail != "false" && !isErrCall {
 				return nil, false
@@ -435,7 +461,7 @@ func (e *symEnv) inlineCall(f *types.Func, call *ast.CallExpr) (lpoly, bool) {
 	default:
 		return nil, false
 	}
-	sub := newSymEnv(e.p, h.Pkg.TypesInfo)
+	sub := newSymEnv(e.p, info)
 	sub.depth = e.depth + 1
 	for i := 0; i < sig.Params().Len(); i++ {
 		a, ok := e.eval(call.Args[i])
@@ -444,7 +470,7 @@ func (e *symEnv) inlineCall(f *types.Func, call *ast.CallExpr) (lpoly, bool) {
 		}
 		sub.vars[sig.Params().At(i)] = a
 	}
-	sub.run(h.Decl.Body.List)
+	sub.run(body.List)
 	if len(last.Results) == 0 {
 		// bare return with named results
 		if p, ok := sub.vars[sig.Results().At(0)]; ok {
@@ -472,6 +498,21 @@ func constOf(p lpoly) (int64, bool) {
 
 // assign records `lhs = rhs` / `lhs := rhs`.
 func (e *symEnv) assign(lhs, rhs ast.Expr) {
+	if lit, isLit := ast.Unparen(rhs).(*ast.FuncLit); isLit {
+		if id, isID := ast.Unparen(lhs).(*ast.Ident); isID {
+			if o := core.ObjOf(e.info, id); o != nil {
+				if e.lits == nil {
+					e.lits = map[types.Object]*ast.FuncLit{}
+				}
+				if _, seen := e.lits[o]; seen {
+					e.lits[o] = nil // bound twice: not a fixed helper
+				} else {
+					e.lits[o] = lit
+				}
+			}
+		}
+		return
+	}
 	val, ok := e.eval(rhs)
 	if !ok {
 		return
